@@ -70,7 +70,7 @@ def _build():
     if _built:
         return
     _built = True
-    bp_mods = ["py_bp", "py_bp_struct", "gen_py", "gen_c", "gen_go", "py_formatter"]
+    bp_mods = ["py_bp", "py_bp_struct", "gen_py", "gen_c", "gen_go", "py_formatter", "c_bitproto"]
     add(Check("C19", ["gen_go", "py_formatter"], explanation="Go: pure helpers of lib/go/bitproto.go proved against the same spec formulas as their Python "
               "twins; per template: struct fields / covering types / size constant / processor tree equal to the model and to the generated "
               "Python module's tree; generated accessors exercised end to end through the real Go runtime"))
@@ -91,7 +91,7 @@ def _build():
         ("C06", "big-endian: the -DBP_BIG_ENDIAN AST of runtime + generated code interpreted under a big-endian memory "
                 "model gives the same wire bytes / values as the little-endian run (same reference layout)"),
     ]:
-        add(Check(pr, ["gen_c", "gen_go", "py_formatter"] if pr == "C04" else ["gen_c", "py_formatter"], explanation=ex))
+        add(Check(pr, ["gen_c", "gen_go", "py_formatter"] if pr == "C04" else ["gen_c", "py_formatter", "c_bitproto"], explanation=ex))
     add(Check("C12", bp_mods + ["py_ast", "py_parser"], explanation="wire format depends only on field numbers and resolved types: alias/enum "
               "transparency and sorted-order contracts (_ast.py, bp.py), every listed rewrite of a base schema proved per program "
               "(Python, C standard, C -O) against its own reference layout, and the lemma that those layouts are bit-identical"))
